@@ -847,6 +847,20 @@ func (w *world) oracle(kind string, rc retryCfg) {
 				}
 			}
 		}
+		// (3b) a back-off wait is never skipped: after a retryable response (not a timed-out or failed
+		// connection, whose end the collector does not see) the next attempt starts no sooner than a quarter
+		// of the configured initial interval later - the exponential back-off draws its waits from half to one
+		// and a half times the current interval, which is never below the initial one (after seeded change
+		// C14-m, whose wait returns at once when the deadline is nearer than the delay)
+		for i := 0; i+1 < n && rc.enabled; i++ {
+			oc := outcomeOf(i)
+			if oc.clientTimeout || oc.dialFail || !oc.retryable(w.isGRPC) {
+				continue
+			}
+			if gap := c.attempts[i+1].at - (c.attempts[i].at + oc.latency); gap < rc.initial/4 {
+				r.Violate(prop, "backoff-skipped", "backoff-skipped/"+proto, "%s: attempt %d started %v after the response %s to attempt %d; the configured initial retry interval is %v", where, i+1, gap, oc, i, rc.initial)
+			}
+		}
 		// (5) nothing starts after the deadline or after Shutdown has returned
 		for _, a := range c.attempts {
 			if a.at > deadlineAt {
